@@ -41,7 +41,10 @@ class PacketSink(Device):
         self.perhop_times = dd(list)
 
         self.first_arrival = dd(lambda: 0.0)
-        self.last_arrival = dd(lambda: 0.0)
+        # the first inter-arrival time of a flow is counted from the instant the
+        # sink was created (the clock origin of the run), not from the literal 0
+        origin = env.now
+        self.last_arrival = dd(lambda: origin)
 
         self.debug = debug
 
